@@ -19,7 +19,8 @@ VARIANT_FOREIGN_ATTRS = ["#[allow(dead_code)]", "/// doc comment", "#[doc = \"x\
                          "#[allow(dead_code, unused)]", "#[deprecated(since = \"1.0.0\", note = \"use another one\")]",
                          "#[doc(alias = \"a\", alias = \"b\")]", "#[cfg_attr(all(), allow(dead_code), doc = \"two\")]", "#[cfg(all())]",
                          "/** block doc */", "#[doc = r\"raw\"]", "#[allow(clippy::all, unused)]", "#[rustfmt::skip]", "#[cfg(not(any()))]",
-                         "#[allow()]", "#[doc(alias(\"p\", \"q\"))]"]
+                         "#[allow()]", "#[doc(alias(\"p\", \"q\"))]", "#[doc(hidden)]", "#[non_exhaustive]", "#[doc(hidden)] #[deprecated]",
+                         "#[cfg_attr(any(), enum_tools(rename = \"never\"))]"]
 ENUM_FOREIGN_ATTRS = ["#[allow(dead_code)]", "/// An enum.", "#[doc(hidden)]", "#[cfg_attr(all(), allow(unused))]", "#[allow(dead_code, unused)]",
                       "#[deprecated(since = \"1.0.0\", note = \"n\")]", "#[doc(alias = \"a\", alias = \"b\")]", "#[must_use = \"m\"]", "#[non_exhaustive]",
                       "#[rustfmt::skip]", "/** block doc */", "#[cfg_attr(all(), allow(dead_code), doc = \"two\")]", "#[allow(clippy::all, unused)]"]
